@@ -181,6 +181,13 @@ class Job:
                 self.flt["off-" + ty] = float_values_off(rng, 96 * ch, ty, cd)
         self.twins = {}
         self.plan_seed = rng.randrange(1 << 30)
+        # codecs without a stated float twin (G.711): the normalised vectors written with both switches on and with the OTHER type's switch off
+        # must give the same file (Sf.CrossTypeQ.wqueryOk: same items, a state the call does not look at differs)
+        self.gflt = {}
+        if cd[0] == "g711":
+            gr = random.Random(self.plan_seed)
+            for ty in ("f32", "f64"):
+                self.gflt[ty] = [v for v in float_values(gr, 300 * ch, ty)]
 
     def open_w(self, h, s):
         return "open %s %s w fmt=%08x ch=%d sr=%d" % (h, s, self.fmt.word, self.ch, self.sr)
@@ -231,6 +238,14 @@ class Job:
             if ty in self.twins:
                 wfile(k, ty, self.flt[ty], other_off=True)
             k += 1
+        self.gfiles = {}
+        k = 3                                              # (a G.711 job has no float twins: slots 3..6 are free; the harness has 16 handle slots)
+        for ty in ("f32", "f64"):
+            if ty in self.gflt:
+                wfile(k, ty, self.gflt[ty])
+                wfile(k + 1, ty, self.gflt[ty], other_off=True)
+                self.gfiles[ty] = (k, k + 1)
+            k += 2
         return "\n".join(L) + "\n"
 
     def read_script(self, filehex, frames, seekable, rng, ncalls):
@@ -418,6 +433,8 @@ def run(ctx, budget=45.0):
                 Wmix[sfx] += ["twin float " + ty, "xs " + K.hex_items(j.flt[ty], DIG[ty]), "ys " + K.hex_items(j.twins[ty], 8), "fx " + d[k], "fy " + d[kt]]
             k += 1
         stats["twin_files"] += len(j.files)
+        j.gmix_bad = [ty for ty, (ka, kb) in getattr(j, "gfiles", {}).items() if d.get(ka) != d.get(kb)]
+        stats["W_state_twins"] = stats.get("W_state_twins", 0) + len(getattr(j, "gfiles", {}))
         # (R) + (S)
         rl = rres.get(j.name, [])
         sl = j.rscript.strip().split("\n")
@@ -566,6 +583,17 @@ def report(ctx, jobs, verdicts):
                 n += 1
                 ctx.violation("crosstype-%s-run" % j.name, "# C02 cross-type campaign, %s: %s\n--- script\n%s" % (j.name, j.why, getattr(j, "rscript", j.write_script())[:200000]), no_input=True)
             continue
+        for ty in getattr(j, "gmix_bad", []):
+            if ("W-state", j.fmt.codec, ty) in seen:
+                continue
+            seen.add(("W-state", j.fmt.codec, ty))
+            n += 1
+            extra = ["cmd h0 %s 0 null" % ("1012" if ty == "f32" else "1013")]
+            script, xs, ys = shrink_twin(ctx, j, ty, j.gflt[ty], ty, j.gflt[ty], normoff=False, extra=extra)
+            ctx.violation("crosstype-%s-W-state-%s" % (j.name, ty), "c02-crosstype W-state\n# C02 (%s, %d channel(s)): the file written from %s items depends on the normalisation switch of the OTHER floating type "
+                          "(\"with normalisation on … writes of x in [-1,1) store the nearest integer to x*(2^(w-1)-1)\": sf_write_%s looks at %s only)\n"
+                          "# twin files: both are written from the same %d item(s) %s, the first on a handle whose other switch was turned off; their dumps must be identical (Sf.CrossTypeQ.wqueryOk)\n# %s\n--- script\n%s"
+                          % (j.name, j.ch, ty, "float" if ty == "f32" else "double", "SFC_SET_NORM_FLOAT" if ty == "f32" else "SFC_SET_NORM_DOUBLE", len(xs), K.hex_items(xs[:8], DIG[ty]), codec_line(j.cd, j.ch, 1), script))
         for sfx, _h, nF, nD in SETTINGS:
             norm = nF
             v = verdicts.get("%s/%s" % (j.name, sfx))
